@@ -52,13 +52,21 @@ OPD = {"op": "-", "d": "d", "k": "", "v": "", "ver": -1, "n": 0, "at_secondary":
 def normalize(raw_files, out_path, primary="n1"):
     import common
     n = runs = 0
+    panicked = set()
     with open(out_path, "w") as g:
         for rf in raw_files:
             for line in open(rf):
                 raw = json.loads(line)
                 ev = raw["ev"]
                 o = None
+                if ev in ("repl", "sup") and raw.get("dead"):
+                    if (raw["node"], ev) in panicked:
+                        continue      # consequence of the loop's earlier (reported) panic
+                    raw["panic"] = True
+                if ev in ("repl", "sup") and raw.get("panic"):
+                    panicked.add((raw["node"], ev))
                 if ev == "reset":
+                    panicked = set()
                     runs += 1
                     o = {"ev": "reset", "run": raw["run"], "nodes": raw["nodes"]}
                 elif ev == "tool_error":
